@@ -58,6 +58,10 @@ func fold(raws []raw) map[string][]rec {
 				r.Q, r.RK = x.C == "q", x.State == "resv-known"
 			}
 			add(r)
+		case "X":
+			r := blank("foreign_call", "X", x.Seq)
+			r.C = x.C
+			add(r)
 		case "N":
 			r := blank("hn_resolve", "N", x.Seq)
 			r.R = x.R
@@ -180,7 +184,7 @@ func fold(raws []raw) map[string][]rec {
 // the sink; the causal predecessor is always placed first). Among the placeable heads the earliest observed goes first.
 // The second result counts heads that had to be forced (missing predecessor): 0 on a well-formed observation.
 func linearize(th map[string][]rec, preexisting bool) ([]rec, int) {
-	order := []string{"H", "S", "D", "C", "N"}
+	order := []string{"H", "S", "D", "C", "N", "X"}
 	idx := map[string]int{}
 	var out []rec
 	forcedN := 0
